@@ -39,6 +39,28 @@ def end_time_index(prev_state, last_state):
 ALLKINDS = list(MG.GENERATORS) + list(getattr(MG, "EXTRA_GENERATORS", {}))
 
 
+ECHO_KINDS = ["rare", "rare", "rare", "wellextra", "wellextra", "groupextra", "wefac", "wecon", "wtest", "gefac", "wgrupcon"]
+
+
+def perturb(t):
+    """the same keyword for the same object with another value: the last decimal number of the first record halved
+    (an integer >= 4 likewise); keywords without such a number are re-issued unchanged"""
+    lines = t.split("\n")
+    if len(lines) < 2:
+        return t
+    toks = lines[1].split(" ")
+    for i in range(len(toks) - 1, -1, -1):
+        x = toks[i]
+        if re.fullmatch(r"\d+\.\d*(e-?\d+)?|\d*\.\d+(e-?\d+)?|\d+e-?\d+", x):
+            toks[i] = repr(float(x) * 0.5)
+            break
+        if re.fullmatch(r"\d+", x) and int(x) >= 4:
+            toks[i] = str(int(x) // 2)
+            break
+    lines[1] = " ".join(toks)
+    return "\n".join(lines)
+
+
 @st.composite
 def case_strategy(draw):
     m = MG.Model()
@@ -50,9 +72,21 @@ def case_strategy(draw):
         t = draw(MG.gen_kw(m, draw(st.sampled_from(ALLKINDS))))
         if t:
             openkw.append(t)
+    # "echo": rarely used keywords in the last block of the prefix come back in the tail for the same well / group with
+    # another value - the shape that shows a later keyword editing an object shared with earlier states in place
+    echo = []
+    if draw(st.booleans()):
+        for _ in range(draw(st.integers(1, 3))):
+            t = draw(MG.gen_kw(m, draw(st.sampled_from(ECHO_KINDS))))
+            if t:
+                blocks[-1]["kws"].append(t)
+                echo.append(perturb(t))
     ma, mb = m.clone(), m.clone()
     ta, na = draw(MG.gen_time(ma))
     tail_a = [draw(MG.gen_block(ma, kinds=ALLKINDS)) for _ in range(draw(st.integers(1, 3)))]
+    if echo:
+        k = draw(st.integers(0, len(tail_a) - 1))
+        tail_a[k] = dict(tail_a[k], kws=echo + list(tail_a[k]["kws"]))
     tb, nb = draw(MG.gen_time(mb))
     tail_b = [draw(MG.gen_block(mb, kinds=ALLKINDS)) for _ in range(draw(st.integers(0, 3)))]
     final_b = []
@@ -106,7 +140,7 @@ class C03(Check):
                    "not through operator== (polluted by the unit-system dimension cache)",
                    "Schedule-global registries (action_wgnames, completed cells, restart output, exit status) are not compared",
                    "a tail that the library rejects is discarded (a later block may legitimately be invalid)"]
-    EXAMPLES = {"quick": 60, "thorough": 1500}
+    EXAMPLES = {"quick": 200, "thorough": 2500}
     MIN_EVALS = {"quick": 600, "thorough": 12000}
     TIME_CAP = {"quick": 200, "thorough": 1500}
     LEVEL_TEXT = ("Generated-input search with a metamorphic oracle: replacing, removing or editing everything after report step k "
